@@ -15,7 +15,7 @@
 EXTENDS Naturals, Sequences, FiniteSets, TLC
 
 CONSTANTS Streams, MaxSent, MaxWrite, MaxMsg, MaxTotal, MaxClose, Bufs,
-          Glitches,  \* subset of {"dataerr", "temperr", "shortwrite"}: glitches of the underlying connection
+          Glitches,  \* subset of {"dataerr", "temperr", "shortwrite", "refusewrite"}: glitches of the underlying connection
           Cuts,      \* subset of {"cuteof", "cutrst"}: the underlying connection is cut (ends with EOF / with an error)
           CutPos,    \* ... after that many more frames of the direction have arrived (0 = at once)
           Delays     \* classes of (virtual) time that may pass between two operations
